@@ -36,7 +36,7 @@ ASSUMPTIONS = ["reference self-tests passed", "twins follow the same branch: eve
 @st.composite
 def _case(draw):
     n_env = draw(st.integers(2, 3))
-    fd = draw(st.sampled_from([2, 3]))
+    fd = draw(st.sampled_from([1, 2, 2, 3, 3]))
     lab = draw(st.integers(0, fd - 1))
     pol = draw(st.sampled_from(["H", "V", "R"]))
     envs = [dict(fdim=fd, fock=lab, pol=pol) for _ in range(n_env)]
@@ -109,6 +109,10 @@ def _distinct(case):
         e["fock"] = (e["fock"] + i) % fd
         if i % 2 == 1:
             e["pol"] = {"H": "V", "V": "H", "R": "L"}[e["pol"]]
+    if fd == 1:
+        for i, e in enumerate(t["spec"]["envs"]):
+            e["fdim"] = i + 1
+            e["fock"] = i
     if fd == 2 and len(t["spec"]["envs"]) == 3:
         t["spec"]["envs"][2]["fdim"] = 3
         t["spec"]["envs"][2]["fock"] = 2
